@@ -73,6 +73,10 @@ SIG_F5B = {"site": "patching.patch_obj",
            "shape": "allow_deletion decided on a stale body passes the resourceVersion test re-based on the cycle's own merge-patch response while a finalizer is required"}
 SIG_F5C = {"site": "processing.process_resource_event",
            "shape": "stale block_deletion from remaining_patch applied while the cycle decided no addition"}
+SIG_F6 = {"site": "queueing.worker",
+          "shape": "never released: every cycle re-patches a no-op (constant on.event result); the version it waits for was already processed, state-dependent handlers and the release are skipped forever"}
+SIG_F7 = {"site": "application.apply",
+          "shape": "never released: delays with a non-empty patch that changes nothing: the sleep-then-touch is skipped and no event follows"}
 SIG_EARLY = {"site": "processing.process_resource_causes", "shape": "own finalizer removed while a finalizer is required"}
 
 
@@ -755,6 +759,19 @@ def check_cycle(ctx: Ctx, view: View, sc: dict, cyc: dict) -> None:
                                                "shape": "added on a marked object" if marked else "added when not required"})
 
 
+def _classify_stuck(view: View, cycles: list[dict]) -> dict:
+    last = cycles[-1] if cycles else None
+    ap = (last or {}).get("apply") or {}
+    merge, js = _main_requests(view, last) if last else (None, None)
+    noop = merge is not None and isinstance(merge.get("result"), dict) and \
+        _meta(merge["result"]).get("resourceVersion") == last.get("rv") and js is None
+    if ap.get("delays") and ap.get("patch") and noop:
+        return SIG_F7
+    if ap.get("patch") and noop and not last.get("pcc"):
+        return SIG_F6
+    return {"site": "processing.process_resource_causes", "shape": "never released"}
+
+
 def check_liveness(ctx: Ctx, view: View, sc: dict, tr: dict) -> None:
     end = float(sc.get("end", 60.0))
     if any(r.get("fault") for r in tr["requests"]):
@@ -784,12 +801,11 @@ def check_liveness(ctx: Ctx, view: View, sc: dict, tr: dict) -> None:
                 blockers.append(h["id"])
             if h["kind"] in SPAWNING_KINDS and view.live_calls(h, uid, end):
                 blockers.append(h["id"])
-            if h["kind"] == "event" and h.get("default") not in ("ok", None):
-                blockers.append(h["id"])   # results of event handlers re-patch forever (no-op patches): handlers starve
         if not blockers:
             ctx.oracle_fail(f"the object is marked for deletion, every matching deletion handler has finished, no daemon runs, yet the "
                             f"finalizer is still there {end - quiet_from:g} s after the last external event",
-                            {"scenario": sc, "final": body}, {"site": "processing.process_resource_causes", "shape": "never released"})
+                            {"scenario": sc, "final": body},
+                            _classify_stuck(view, mine))
 
 
 # ---- running --------------------------------------------------------------------------------------
